@@ -165,15 +165,19 @@ CLAIMS = {
         "DESIGN.md §3 C08",
     ),
     "C10": (
-        "wiring analysis of the transformation machinery: CFG dominance + binding-direction def-use for inline-call plugins, who-may-register check on rule registrations, reference-table check of forwarded rules, forwarding check of re-binding rules",
-        "Only the WIRING is decided, not the values any rule computes. Inline-call plugins (jit, pjit, custom_jvp_call, custom_vjp_call, remat2) must read the primal sub-jaxpr (never a derivative-rule key), bind every inner "
-        "input variable to the outer value before the body is lowered through the checked dispatcher and bind every outer output to the inner value after it, all on the same jaxpr object; every batching / JVP / transpose rule "
-        "registration (239 sites: registry tables and register_* helpers) must target a primitive of the same module with a rule / impl function of that module; rules forwarded from a lax primitive must come from the primitive "
-        "that implements the same function (reference table); rules that bind the primitive again must forward every parameter (C19 R-C19e). These are necessary conditions of 'vmap / grad / jit of f exports the transformed f': "
-        "breaking one makes every program using that primitive under the transformation export a different function.",
-        "NOT decided (and not decidable by this family): whether any batching, JVP or transpose rule computes the right values, in_axes/out_axes arithmetic, linear-transpose backfill correctness. In this environment every export with an inner "
-        "jax.jit fails loudly (installed-jax incompatibility in JitPlugin._freshen_closed_jaxpr, part of the pinned always-fail set), so most of C10 cannot even be observed at run time here. Frozen tables: INLINE_TABLE, FORWARD_TABLE "
-        "(functions outside them are UNRESOLVED).",
+        "wiring analysis of the transformation machinery (CFG dominance, binding-direction def-use, who-may-register, reference tables) plus finite-domain abstract interpretation of batching-rule source on axis-labelled arrays against label models of the operations, and a library-reference check (numpy ufunc registry, library signatures) of position-independent batchers",
+        "WIRING: inline-call plugins (jit, pjit, custom_jvp_call, custom_vjp_call, remat2) must read the primal sub-jaxpr (never a derivative-rule key), bind every inner input variable to the outer value before the body is lowered "
+        "through the checked dispatcher and bind every outer output to the inner value after it, all on the same jaxpr object; every batching / JVP / transpose rule registration (239 sites) must target a primitive of the same module; "
+        "rules forwarded from a lax primitive must come from the primitive that implements the same function; rules that bind the primitive again must forward every parameter (C19 R-C19e). "
+        "BATCHING-RULE AXIS ARITHMETIC (R-C10e): the source of 40 hand-written batching rules, and of the shared broadcasting batcher through each of its 28 users, is interpreted by the finite-domain evaluator on arrays whose axes carry labels "
+        "(batch / example / unit axes) for every example rank 1..3, every position of the batch axis per operand and every in-range axis parameter (both signs, tuples, None); a case is a violation when a re-bind / per-example call acts on the "
+        "batch axis, jax.vmap maps over another axis, the returned batch dimension does not name the batch axis, or the per-example layout / the set of axes acted on differs from a label model of the operation applied to the original parameters. "
+        "Which values reach a rule is read from the wrapper's own bind site (pass-through vs canonicalised; otherwise the class is UNRESOLVED). R-C10f: a batching rule that leaves the batch axis where it is (generic element-wise / broadcasting "
+        "batchers, plain re-binds found by evaluation) may only be installed for a library function that is position-independent (numpy element-wise ufunc or reference table), never for a generalised ufunc, a core-dimension function or a function "
+        "with an axis parameter. Both are necessary conditions of 'vmap(f) exports the batched f' for every in_axes variant.",
+        "NOT decided: the VALUES of JVP / transpose rules and the linear-transpose backfill; batching rules of primitives without a model entry (MultiheadAttention, dot_product_attention, einsum, tile, reshape, pad, GroupNorm: wiring only); "
+        "ranks above 3, several batch axes, spmd axis names. The label models (one per operation kind, ~10 lines each) and the element-wise / core-dimension reference tables are frozen; a primitive outside them is UNRESOLVED or not an instance. "
+        "In this environment every export with an inner jax.jit fails loudly (part of the pinned always-fail set), so some rule defects were confirmed by evaluating the rule against the primitive's own impl eagerly.",
         "DESIGN.md §3 C10 / §4",
     ),
     "C16": (
